@@ -446,8 +446,13 @@ def run_case(spec):
             kw["fully_diagonalize"] = (0,)
         elif how == "pairs_in_hermitian_mode":
             kw.pop("subspace_indices")
-            kw["subspace_eigenvectors"] = tuple((v, v) for v in vecs)
+            # every subspace as a pair, or pairs mixed with plain bases in any position (a single pair is enough)
+            as_pair = [True] * nb if rng.random() < 0.4 else [bool(rng.integers(0, 2)) for _ in range(nb)]
+            if not any(as_pair):
+                as_pair[int(rng.integers(0, nb))] = True
+            kw["subspace_eigenvectors"] = tuple((v, v.copy()) if pr_ else v for v, pr_ in zip(vecs, as_pair))
             kw["hermitian"] = True
+            variant = how = "pairs_in_hermitian_mode" + ("" if all(as_pair) else "_mixed")
         elif how == "ndarray_fd_multiblock":
             if nb == 1:
                 return dict(verdict="inconclusive", detail="needs >= 2 blocks")
